@@ -591,3 +591,61 @@ def try_all(fn, du, cfg, site):
         if r:
             return r
     return None
+
+
+# ------------------------------------------------------------------------------------------
+# a site inside a helper, guarded by its callers
+
+def try_in_callers(F, f, site, max_depth=2):
+    """A site that sits in a helper function whose *callers* establish the guard (`if best.len() < limit { top_up(best, limit) }`
+    with `limit - best.len()` inside `top_up`): the helper is inlined into every workspace caller (two levels up at most) and
+    the site's copy is discharged there; every caller must succeed.  Not attempted for `pub` functions (callers outside the
+    workspace are unknown) and for closures."""
+    import copy as _copy
+    from .common import callers_index
+    if f.get("def_kind") == "Closure" or (f.get("vis") or "") == "Public":
+        return None
+
+    def attempt(chain, depth):
+        top = chain[0]
+        sites = callers_index(F).get(top["path"], [])
+        if not sites:
+            return None
+        paths = {g["path"] for g in chain}
+        reasons = []
+        seen_callers = set()
+        for caller, t in sites:
+            if caller["path"] in seen_callers or caller["path"] in paths:
+                continue
+            seen_callers.add(caller["path"])
+
+            def want(t2, callee, paths=paths):
+                return callee["path"] in paths
+            try:
+                body = mir.inline_calls(F, F.built.get(caller["path"], caller), want=want, depth=len(chain))
+            except Exception:
+                return None
+            copies = [bi for bi, b in enumerate(body["blocks"]) if b.get("inl") == f["path"] and b.get("inl_bb") == site.bb and not b["cleanup"]]
+            if not copies:
+                return None
+            du, cfg = mir.DefUse(body), mir.CFG(body)
+            got = None
+            for bi in copies:
+                s2 = _copy.copy(site)
+                s2.bb = bi
+                s2.fn = body
+                s2.term = body["blocks"][bi]["t"]
+                got = try_all(body, du, cfg, s2)
+                if got is None:
+                    break
+            if got is None:
+                if depth < max_depth and (caller.get("vis") or "") != "Public" and caller.get("def_kind") != "Closure":
+                    got = attempt([caller] + chain, depth + 1)
+                if got is None:
+                    return None
+            reasons.append(got)
+        if not reasons:
+            return None
+        return reasons[0]
+    r = attempt([f], 1)
+    return ("%s (guard established by the caller(s); helper inlined)" % r) if r else None
